@@ -136,6 +136,7 @@ macro_rules! arch_roundtrip {
 
 arch_roundtrip!(serrt_q_azd_n2_rows, RAZD, [true, true, true] x 2, human_readable = true);
 arch_roundtrip!(serrt_q_ad_n2_cols, RAZD, [true, false, true] x 2, human_readable = false); // (with the zero-sized column the column-wise decoder does not fit in 20 GB)
+arch_roundtrip!(serrt_q_ad_n2_rows, RAZD, [true, false, true] x 2, human_readable = true);
 arch_roundtrip!(serrt_t_dbwa_n2_rows, RDBWA, [true, false, true, true] x 2, human_readable = true);
 arch_roundtrip!(serrt_t_dbwa_n2_cols, RDBWA, [true, false, true, true] x 2, human_readable = false);
 arch_roundtrip!(serrt_t_ab_n0_rows, RAB, [true, true] x 0, human_readable = true);
@@ -283,6 +284,9 @@ arch_damaged!(serbad_t_ad_n2_rows_len_0, RAZD, [true, false, true] x 2, human_re
 arch_damaged!(serbad_t_ad_n2_cols_len_0, RAZD, [true, false, true] x 2, human_readable = false, at = 5, mode = (set Tok::U64(0)));
 arch_damaged!(serbad_t_ad_n2_rows_early_end, RAZD, [true, false, true] x 2, human_readable = true, at = 13, mode = (set Tok::TupleEnd));
 arch_damaged!(serbad_t_ad_n2_cols_early_end, RAZD, [true, false, true] x 2, human_readable = false, at = 13, mode = (set Tok::TupleEnd));
+
+arch_damaged!(serbad_q_dbwa_n1_cols_err_third_column, RDBWA, [true, true, false, true] x 1, human_readable = false, at = 20, mode = read_error);
+arch_damaged!(serbad_t_dbwa_n1_cols_err_second_column, RDBWA, [true, true, false, true] x 1, human_readable = false, at = 17, mode = read_error);
 
 // ------------------------------------------------------------------------------------------
 // archetype::Identifier: accepted exactly when the padding bits are clear
